@@ -286,6 +286,8 @@ fn from_slice6(first: u8, b: &[u8]) -> String {
                     ("ip_headers_slice", ip.header().payload_ip_number()),
                     ("ip_headers_from_slice", IpHeaders::from_slice(&pkt).map(|x| x.1.ip_number).unwrap_or(IpNumber(255))),
                     ("ip_headers_next_header", ip.to_header().next_header().unwrap_or(IpNumber(255))),
+                    ("lax_ip_slice", LaxIpSlice::from_slice(&pkt).map(|x| x.0.payload_ip_number()).unwrap_or(*next)),
+                    ("lax_ip_slice_payload", LaxIpSlice::from_slice(&pkt).map(|x| x.0.payload().ip_number).unwrap_or(*next)),
                 ];
                 for (name, n) in nums {
                     // (next_header() walks the struct and demands a referenced chain; the others read the bytes)
@@ -305,13 +307,51 @@ fn from_slice6(first: u8, b: &[u8]) -> String {
 
 fn from_slice4(first: u8, b: &[u8]) -> String {
     match Ipv4Extensions::from_slice(IpNumber(first), b) {
-        Ok((e, next, rest)) => format!(
-            "ok({},next={},rest={},header_len={})",
-            show_auth(e.auth.as_ref()),
-            next.0,
-            win(b, rest),
-            e.header_len()
-        ),
+        Ok((e, next, rest)) => {
+            // the number behind the chain through every door of an IPv4 packet that carries these bytes
+            let mut diffs: Vec<String> = Vec::new();
+            if b.len() <= 0xffff - 20 {
+                let mut pkt = vec![0x45u8, 0];
+                pkt.extend_from_slice(&((20 + b.len()) as u16).to_be_bytes());
+                pkt.extend_from_slice(&[0, 0, 0, 0, 64, first, 0, 0, 10, 0, 0, 1, 10, 0, 0, 2]);
+                pkt.extend_from_slice(b);
+                let mut nums: Vec<(&str, IpNumber)> = Vec::new();
+                if let Ok(ip) = IpSlice::from_slice(&pkt) {
+                    nums.push(("ip_slice", ip.payload_ip_number()));
+                    nums.push(("ip_slice_payload", ip.payload().ip_number));
+                    nums.push(("ip_headers_slice", ip.header().payload_ip_number()));
+                }
+                if let Ok(ip) = Ipv4Slice::from_slice(&pkt) {
+                    nums.push(("ipv4_slice", ip.payload_ip_number()));
+                }
+                if let Ok((ip, _)) = LaxIpSlice::from_slice(&pkt) {
+                    nums.push(("lax_ip_slice", ip.payload_ip_number()));
+                    nums.push(("lax_ip_slice_payload", ip.payload().ip_number));
+                }
+                if let Ok((ip, _)) = LaxIpv4Slice::from_slice(&pkt) {
+                    nums.push(("lax_ipv4_slice", ip.payload_ip_number()));
+                }
+                if let Ok((_, pl)) = IpHeaders::from_slice(&pkt) {
+                    nums.push(("ip_headers_from_slice", pl.ip_number));
+                }
+                if let Ok((_, pl, _)) = IpHeaders::from_slice_lax(&pkt) {
+                    nums.push(("ip_headers_from_slice_lax", pl.ip_number));
+                }
+                for (name, n) in nums {
+                    if n != next {
+                        diffs.push(format!("{}_number={}", name, n.0));
+                    }
+                }
+            }
+            format!(
+                "ok({},next={},rest={},header_len={}){}",
+                show_auth(e.auth.as_ref()),
+                next.0,
+                win(b, rest),
+                e.header_len(),
+                if diffs.is_empty() { String::new() } else { format!("!decoders-differ({})", diffs.join(";")) }
+            )
+        }
         Err(err) => {
             use err::ip_auth::HeaderSliceError as S;
             match err {
